@@ -37,6 +37,8 @@ Proof.
   intro K. specialize (B K). unfold peek_eq, peek_is, peek in *. cbn [nth_error plus]. exact B.
 Qed.
 
+Definition easy (l : bytes) : Prop := forall p, nth_error l p = Some x3c -> pointy_easy l (S p).
+
 Lemma no_decl_pi_easy : forall l, no_decl_pi l = true -> easy l.
 Proof.
   induction l as [|c r IH]; intros H p Ep; [destruct p; discriminate Ep|].
@@ -58,7 +60,8 @@ Theorem inlines_total_no_decl_pi memo o u inp lo sl refmap maxref rs0 :
   exists ch rs, parse_inlines memo o u inp lo sl refmap maxref rs0 = Ok (ch, rs).
 Proof.
   intros Hrt Hfl Hlo Hr He.
-  exact (inlines_total_easy memo o u inp lo sl refmap maxref Hrt Hfl (no_decl_pi_easy _ He) rs0 Hlo Hr).
+  apply (inlines_total_hardok memo o u inp lo sl refmap maxref Hrt Hfl); [|exact Hlo|exact Hr].
+  intros p Ep. apply pointy_easy_hard_ok. exact (no_decl_pi_easy _ He p Ep).
 Qed.
 
 (* ------------------------------------------------------------------ the statement of the third wave is false *)
